@@ -1,5 +1,6 @@
 import WK.Proofs.C28_inv
 import WK.Proofs.C28_accept
+import WK.Proofs.C28_dispatch
 import WK.Gen.C28
 /-
   C28 — Every SEND gets exactly one SENDACK, in order.
@@ -386,5 +387,80 @@ theorem c28_lts_ack_accepted_partial (h : Reach shardOf st) {s : Nat} (hs : step
         · intro hd; exact hsim.hdrain hd
 
 example : SimAck 1 {} {} := ⟨rfl, rfl, rfl, fun h => by cases h⟩
+
+/-! ## Part 6 — completeness direction, dispatch bookkeeping (partial) -/
+
+/-- Dispatch order, model side: a `take` hands the usecase, for every session, exactly the next
+    admitted-but-not-yet-dispatched SENDs of that session, in order — nothing skipped, nothing
+    twice, nothing that was not admitted. -/
+theorem c28_lts_take_in_order (h : Reach shardOf st) {sh k : Nat} (hs : step shardOf st (.take sh k) = some st') (s : Nat) :
+    ∃ X taken, st'.inflight = st.inflight ++ taken ∧ (st.sess s).admitted = X ++ itemsOf s st.queue ∧
+      (st'.sess s).admitted = X ++ itemsOf s taken ++ itemsOf s st'.queue := by
+  obtain ⟨X, hX⟩ := qsuffix_reach h s
+  simp only [step] at hs
+  split at hs
+  · cases hs
+  · cases hs
+    refine ⟨X, (takeP (fun it => shardOf it.1 == sh) k st.queue).1, rfl, hX.symm, ?_⟩
+    have key : itemsOf s (takeP (fun it => shardOf it.1 == sh) k st.queue).1 ++
+        itemsOf s (takeP (fun it => shardOf it.1 == sh) k st.queue).2 = itemsOf s st.queue := by
+      by_cases hsx : shardOf s = sh
+      · exact (takeP_in _ s (by intro it hit; simp [hit, hsx]) k st.queue).symm
+      · obtain ⟨a, b⟩ := takeP_out (fun it => shardOf it.1 == sh) s (by intro it hit; simp [hit, hsx]) k st.queue
+        rw [a, b]; simp
+    simp only [List.append_assoc, key]
+    exact hX.symm
+
+/-- Completeness, dispatch clauses (partial: the relation between acceptor and model state is a
+    hypothesis): the `hand` events of a `take` are accepted for session `s` — none of
+    `dispatch-after-drain-returned`, `dispatch-out-of-order`, `dispatch-after-fence` fires —
+    whenever the acceptor has dispatched exactly the prefix before the taken items
+    (`itemsOf s taken` is the next stretch of `sent` after `hcnt`, which
+    `c28_lts_take_in_order` provides), the drain has not completed, and no SEND handed over
+    after the fence is among them; the dispatch bookkeeping (`hcnt`, `kinds`) advances by
+    exactly the taken items of `s`. -/
+theorem c28_lts_hand_accepted_partial (kindOf : Nat → Nat → Nat) (s : Nat) : ∀ (taken : List Item) (a : Acc),
+    a.drainOk = false →
+    itemsOf s taken <+: a.sent.drop a.hcnt →
+    (∀ i, a.lateFrom = some i → a.hcnt + (itemsOf s taken).length ≤ i) →
+    ∃ a', runFrom s a (handEvents kindOf taken) = .ok a' ∧
+      a'.hcnt = a.hcnt + (itemsOf s taken).length ∧
+      a'.kinds = a.kinds ++ (itemsOf s taken).map (kindOf s) ∧
+      a'.sent = a.sent ∧ a'.acnt = a.acnt ∧ a'.closed = a.closed ∧ a'.drainOk = a.drainOk ∧
+      a'.lateFrom = a.lateFrom ∧ a'.fence = a.fence ∧ a'.lastPush = a.lastPush
+  | [], a, _, _, _ => ⟨a, by simp [handEvents, runFrom]⟩
+  | (t, n) :: xs, a, hd, hp, hl => by
+    by_cases hts : t = s
+    · subst hts
+      rw [itemsOf_cons] at hp hl
+      simp only [if_true] at hp hl
+      obtain ⟨hget, hrest⟩ := prefix_drop_head hp
+      have hlate : a.nextIsLate = false := by
+        unfold Acc.nextIsLate
+        cases hlf : a.lateFrom with
+        | none => rfl
+        | some i =>
+          have := hl i hlf
+          simp only [List.length_cons] at this
+          simp; omega
+      have hstep : stepS t a (Ev.hand t n (kindOf t n)) = .ok { a with hcnt := a.hcnt + 1, kinds := a.kinds ++ [kindOf t n] } := by
+        simp [stepS, hd, hget, hlate]
+      obtain ⟨a', h1, h2, h3, h4, h5, h6, h7, h8, h9, h10⟩ := c28_lts_hand_accepted_partial kindOf t xs
+        { a with hcnt := a.hcnt + 1, kinds := a.kinds ++ [kindOf t n] } hd hrest
+        (by intro i hi; have := hl i hi; simp only [List.length_cons] at this; simp; omega)
+      refine ⟨a', ?_, ?_, ?_, h4, h5, h6, h7, h8, h9, h10⟩
+      · simp only [handEvents, List.map_cons, runFrom, hstep]; exact h1
+      · rw [h2, itemsOf_cons]; simp; omega
+      · rw [h3, itemsOf_cons]; simp
+    · have hi : itemsOf s ((t, n) :: xs) = itemsOf s xs := by rw [itemsOf_cons]; simp [hts]
+      rw [hi] at hp hl ⊢
+      have hstep : stepS s a (Ev.hand t n (kindOf t n)) = .ok a := by simp [stepS, hts]
+      obtain ⟨a', h1, rest⟩ := c28_lts_hand_accepted_partial kindOf s xs a hd hp hl
+      exact ⟨a', by simp only [handEvents, List.map_cons, runFrom, hstep]; exact h1, rest⟩
+
+example : ∃ st, run (fun _ => 0) {} [.recv 1, .enq 1 true, .recv 2, .enq 2 true, .recv 1, .enq 1 true, .take 0 3] = some st ∧
+    st.inflight = [(1, 0), (2, 0), (1, 1)] ∧
+    runFrom 1 { sent := [0, 1] } (handEvents (fun _ _ => 0) st.inflight) = .ok { sent := [0, 1], hcnt := 2, kinds := [0, 0] } :=
+  ⟨_, rfl, rfl, rfl⟩
 
 end WK.C28
